@@ -177,7 +177,7 @@ def run_case(ch, cfg, variant: bool, scratch):
         peer = RawPeer(net, ep, script, tls_ctx=sw.peer_tls_ctx(mode), coalesce_first=coalesce,
                        name="cli")
         # wait for the server to end the stream (or the timeout path: 30 s + slack)
-        for _ in range(400):
+        for _ in range(800):
             await asyncio.sleep(0.1)
             if peer.eof_seen() and peer.finished:
                 break
@@ -261,9 +261,11 @@ def run_one(ch):
     line, content, extra, kind, size = gen_request(ch)
     cfg = {
         "mode": mode, "line": line, "content": content, "extra": extra, "size": size, "kind": kind,
-        "hdelay": ch.pick("hdelay", [None, 0.0, 0.3]),
+        # 31 s: slower than the request timeout - a complete request must still be answered
+        # by the handler, however it was segmented
+        "hdelay": ch.pick("hdelay", [None, 0.0, 0.3, 31.0], [4, 4, 4, 1]),
         "upload": ch.pick("upload", ["spy", "real", "none"], [5, 3, 1]),
-        "udelay": ch.pick("udelay", [0.0, 0.3]),
+        "udelay": ch.pick("udelay", [0.0, 0.3, 31.0], [4, 4, 1]),
         "slowmw": ch.pick("slowmw", [None, 0.0, 0.2], [6, 1, 2]),
         "pieces": gen_pieces,
     }
